@@ -351,6 +351,33 @@ MUTANTS = [
     ('C13', 'copy-fallback-truncates', BL,
      "        with open(f1, 'rb') as file1:\n            with open(f2, 'wb') as file2:\n                utils.cp(file1, file2)\n        remove_committed(f1)",
      "        with open(f1, 'rb') as file1:\n            with open(f2, 'wb') as file2:\n                utils.cp(file1, file2, 5)\n        remove_committed(f1)"),
+    ('C18', 'backup-copies-uncommitted-tail', RZ,
+     "    pos = fs.getSize()\n    # Save the storage index into the repository",
+     "    pos = os.path.getsize(options.file)\n    # Save the storage index into the repository"),
+    ('C18', 'incremental-copies-uncommitted-tail', RZ,
+     "    pos = fs.getSize()\n    log('writing index')",
+     "    pos = os.path.getsize(options.file)\n    log('writing index')"),
+    ('C18', 'pack-not-detected', RZ,
+     "        if reposum == srcsum_backedup:\n            log('doing incremental, starting at: %s', reposz)",
+     "        if True:\n            log('doing incremental, starting at: %s', reposz)"),
+    ('C18', 'recover-ignores-date', RZ,
+     "        if root <= when:\n            needed.append(fname)",
+     "        if True:\n            needed.append(fname)"),
+    ('C18', 'verify-skips-checksum', RZ,
+     "            elif not options.quick:\n                if actual_sum != sum:",
+     "            elif not options.quick:\n                if False:"),
+    ('C18', 'verify-skips-size', RZ,
+     "            if size != expected_size:\n                raise VerificationFail(\n                    \"%s is %d bytes%s, should be %d bytes\" % (\n                        filename, size, when_uncompressed, expected_size))",
+     "            if False:\n                pass"),
+    ('C18', 'killold-removes-newest-incrementals', RZ,
+     "    recentfull = full.pop(-1)\n    deletable.remove(recentfull)",
+     "    recentfull = full.pop(0)\n    deletable.remove(recentfull)"),
+    ('C18', 'recover-no-index', RZ,
+     "                shutil.copyfile(source_index, target_index)",
+     "                pass"),
+    ('C18', 'gzip-last-chunk-dropped', RZ,
+     "    def func(data):\n        sum.update(data)\n        ofp.write(data)\n\n    ndone = dofile(func, ifp, n)",
+     "    def func(data):\n        sum.update(data)\n        ofp.write(data if not options.gzip or len(data) == READCHUNK else data[:-1])\n\n    ndone = dofile(func, ifp, n)"),
 ]
 
 
